@@ -14,3 +14,18 @@ package main
 //@ func (*fsChainForObjects).ForEachContainerNodePublicKeyInLastTwoEpochs
 //@   property C31
 //@   ensures [answers_for_the_last_two_epochs] resultOf(err, "*).ForEachContainerNodePublicKeyInLastTwoEpochs")
+
+// ---- C47: the payment status of a container ("unpaid since epoch N", negative = paid) is
+// cached; the shard discards a container's objects when the status says "unpaid long enough".
+// Only an answer the FS chain really gave may enter the cache: after a failed look-up the
+// cache holds for that container what it held before (nothing), so the next look-up asks
+// again instead of finding "unpaid since epoch 0".
+//@ callrule c47_payment_lookup_is_a_read in (*paymentChecker).UnpaidSince
+//@   property C47
+//@   callee *).GetUnpaidContainerEpoch, fmt.Errorf
+//@   pureeffect
+//@ func (*paymentChecker).UnpaidSince
+//@   property C47
+//@   valid p != nil && p.statuses != nil
+//@   ensures [failed_lookup_is_not_cached] err != nil ==> has(p.statuses, cID) == old(has(p.statuses, cID))
+//@   ensures [cached_answer_is_the_chains] err == nil && !old(has(p.statuses, cID)) ==> has(p.statuses, cID) && p.statuses[cID] == res0
